@@ -102,8 +102,10 @@ DIRS = {0: "input", 1: "output", 2: "inout", 3: "none"}
 def build_inner(case, B):
     inner = h.Module(name="Inner")
     irole = IROLE[case.get("role_objs", "same")]
-    inner.p = mk_inst(B, case["flip"], case.get("via"), port=True, role=irole[case["role"]])
-    inner.q = B()
+    # port-ness as a boolean, or as the `Visibility` the README offers as the other spelling (INTERNAL is no port)
+    as_enum = case.get("port_as") == "enum"
+    inner.p = mk_inst(B, case["flip"], case.get("via"), port=(h.Visibility.PORT if as_enum else True), role=irole[case["role"]])
+    inner.q = B(port=h.Visibility.INTERNAL) if as_enum else B()
     return inner
 
 
@@ -282,7 +284,8 @@ def exhaustive_small():
                         t = {"sigs": [], "subs": [{"n": f"l{d}", "flip": flips[d + 1], "via": VIAS[flips[d + 1]][(k + d) % 3], "role": roles[d + 1], "of": t,
                                                    "port": (sum(flips) + d) % 2 == 1}]}
                     yield {"tree": t, "flip": flips[0], "via": VIAS[flips[0]][(k + depth + 1) % 3], "role": roles[0],
-                           "role_objs": ("same", "again", "alone")[(len(kind) + depth + sum(flips)) % 3]}
+                           "role_objs": ("same", "again", "alone")[(len(kind) + depth + sum(flips)) % 3],
+                           "port_as": ("bool", "enum")[(k + len(kind)) % 2]}
 
 
 def run(ctx):
@@ -299,6 +302,7 @@ def run(ctx):
                       "flip": rng.random() < 0.5, "role": rng.choice([None, "HOST", "DEVICE"]),
                       "role_objs": rng.choice(["same", "same", "again", "alone"])})
         cases[-1]["via"] = rng.choice(VIAS[cases[-1]["flip"]])
+        cases[-1]["port_as"] = rng.choice(["bool", "bool", "enum"])
     cases = [c for c in cases if leafcount(c["tree"]) > 0]
     S.run(ctx, cases)
 
